@@ -36,6 +36,11 @@ type oracle struct {
 	// closer is used to stop watermarks.
 	closer *utils.Closer
 
+	// zeroReaders counts active transactions whose read timestamp is 0 (begun on a fresh DB
+	// before the first commit). WaterMark cannot track index 0, so readMark does not protect
+	// them; conflict history is not pruned while one of them is active.
+	zeroReaders int64
+
 	txnStarted   uint64
 	txnCommitted uint64
 	txnConflicts uint64
@@ -134,6 +139,9 @@ func (o *oracle) readTs() uint64 {
 		readTs = last
 	}
 	utils.VerifYield("txn.read.last", readTs)
+	if readTs == 0 {
+		atomic.AddInt64(&o.zeroReaders, 1)
+	}
 	o.readMark.Begin(readTs)
 	utils.VerifYield("txn.read.begun", readTs)
 
@@ -221,6 +229,9 @@ func (o *oracle) newCommitTs(txn *Txn) (uint64, bool) {
 func (o *oracle) doneRead(txn *Txn) {
 	if !txn.doneRead {
 		txn.doneRead = true
+		if txn.readTs == 0 {
+			atomic.AddInt64(&o.zeroReaders, -1)
+		}
 		o.readMark.Done(txn.readTs)
 	}
 }
@@ -229,6 +240,9 @@ func (o *oracle) cleanupCommittedTransactions() { // Must be called under o.Lock
 	if !o.detectConflicts {
 		// When detectConflicts is set to false, we do not store any
 		// committedTxns and so there's nothing to clean up.
+		return
+	}
+	if atomic.LoadInt64(&o.zeroReaders) > 0 {
 		return
 	}
 	// Same logic as discardAtOrBelow but unlocked
